@@ -71,6 +71,16 @@ CHECKS = {
           "Requests over generated corpora (query, filter, sort plan, limit, execution strategy, optional aggregations, optional rescore, first or second page) are evaluated with (explain, profile) off and with the three other combinations: ids, order, scores, totals, cursors and aggregations must be equal, every hit must carry an explanation whose final_score equals its score, and profile must be present when asked. Three listed findings (one root cause: explain runs a separate execution path) are matched by predicate and excluded.",
           "Trusted: comparison only; score tolerance 1e-5 relative.",
           "DESIGN.md §5 C20"),
+  "C16": ("exploration",
+          "structure-aware fuzzing with proptest: valid request skeletons + type-aware hostile JSON mutation, executed in a supervised child process (panic, abort and hang detection)",
+          "Structurally valid search requests (query trees over every node type, filters, sorts, cursors, execution strategies, fuzzy, highlight, collapse, aggregations incl. pipeline/date/significant/composite kinds, suggest, rescore, explain/profile) against three read-only in-memory indexes are mutated by 0-4 type-aware edits (numbers to extremes, strings to hostile patterns/scripts/field names/units, arrays emptied or multiplied, objects losing/swapping members or nested into themselves), plus arbitrary cursor strings and edited copies of real cursors. Whenever the JSON deserializes as SearchRequest, search must return Ok or Err: panics are caught and keyed by call site, a process abort (allocation failure) or a hang (120 s) of the supervised child is traced back to the in-flight case and reported.",
+          "Release profile. Trusted: the supervisor (engine.rs supervise). The child's address space is limited to 24 GiB so that runaway allocations abort early.",
+          "DESIGN.md §5 C16"),
+  "C21": ("exploration",
+          "property-based testing with a validity predicate over every returned fragment/snippet",
+          "Stored texts of 1-60 words over ASCII/Latin-1/CJK/Cyrillic/Greek/Hangul/Hebrew words joined by separators with multi-byte punctuation and emoji, indexed under 3 analyzers; queries built from the text's own words (term, query_string, phrase, bool); highlight options with tags disjoint from the text, number_of_fragments 0..4 and fragment_size = 2 x longest matched surface form + slack (the precondition holds by construction); also the legacy highlight_field snippet. Every fragment must be non-empty, contain a tagged match, be a substring of the stored text without tags, have at most fragment_size characters, and at most number_of_fragments fragments are returned.",
+          "Trusted: nothing but the predicate. Length judged in characters (lenient).",
+          "DESIGN.md §5 C21"),
   "C22": ("exploration",
           "property-based testing against a reference term dictionary (document frequencies computed from the raw documents) plus layout/size/repetition metamorphic relations",
           "Corpora of 3-40 documents without deletions (text field under 5 analyzers, keyword field, vocabulary sharing prefixes and a dense family for the scan-cap stratum) are committed under 2-4 segment layouts and asked completion requests (single-word prefixes of length 0-5, size 1..10, optional fuzzy options): every option must be an indexed term matching the analyzed prefix (or within the edit distance and sharing prefix_length characters), unique, sorted by (score desc, text asc), at most size; doc_freq must equal the number of indexed documents containing the term; below the scan cap the options must be the head of the covering-size list, which must hold exactly the eligible terms; answers must be identical across layouts, repeated calls and fresh readers.",
